@@ -146,6 +146,7 @@ func TestC19(t *testing.T) {
 		cfg := baseConfig()
 		cfg.ExtraImports = rapid.Bool().Draw(rt, "extra")
 		cs := caseOf(cfg, []string{f.RelPath}, f)
+		countShapes(c, f, cs.Config)
 		res := gen.Run(cs)
 		if !res.OK() {
 			c.Count("gen.rejected")
